@@ -302,6 +302,14 @@ def generate(rng, tier, seed):
             c = Case(f"{ver}:short-extended-boundary", {"data": dl})
             scenario(c, rng, ver, rand_blocks(rng, 1, [dl]) + rand_blocks(rng, rng.randrange(0, 2), [3]), 16, None)
             yield c
+        # several extended-length blocks in one header (two to six of them, among short ones, in every position)
+        for nlong in (2, 3, 4, 6):
+            for _ in range(2):
+                blocks = rand_blocks(rng, nlong, [252, 253, 255, 256, 300, 700]) + rand_blocks(rng, rng.randrange(0, 3), [0, 3, 251])
+                rng.shuffle(blocks)
+                c = Case(f"{ver}:several-extended-blocks", {"long": nlong, "all": len(blocks)})
+                scenario(c, rng, ver, blocks, rng.choice([0, 16, 24]), rng.choice([None, 40]))
+                yield c
         for n in (96, 97, 98, 99, 100):
             for dl in ([0], [4], [1, 2, 3]):
                 c = Case(f"{ver}:block-count", {"n": n})
